@@ -14,7 +14,7 @@ RULE = (
     "projection, one or two targets among size/slices/overhead with values "
     "around the achievable range, allow_outer in {True,False,'only'}, "
     "objective, temperature, seed, max_repeats), through SliceFinder.search "
-    "and tree.slice(reslice or not). Oracle, conditional on an answer being "
+    "tree.slice(reslice or not) and tree.slice_and_reconfigure(target_size). Oracle, conditional on an answer being "
     "returned: applying the returned labels to a copy gives max_size == "
     "cost.size, total_flops == cost.total_flops x prior multiplicity, "
     "nslices == cost.nslices x prior multiplicity, and the same figures from "
